@@ -271,11 +271,19 @@ func execExp(f []string) vlib.Res {
 				or = "FAIL sig=exp/cut/name-outside-every-denied-subtree q=" + q.String()
 			}
 		}
+		// the wire-born lookup of the same cut index must agree with the Msg path
+		cw := "miss"
+		if cache.VerifC02LookupCutWire(expCache, q.wire(), dns.ClassINET) {
+			cw = "hit"
+		}
+		if cw != cv && or == "ok" {
+			or = "FAIL sig=exp/cut/wire-and-msg-lookup-differ wire=" + cw + " msg=" + cv
+		}
 		tags := ""
 		if pv != "miss" || cv != "miss" {
 			tags = "nt,synth"
 		}
-		return vlib.Res{Impl: "proof=" + pv + " cut=" + cv, Oracle: or, Tags: tags}
+		return vlib.Res{Impl: "proof=" + pv + " cut=" + cv + " cutw=" + cw, Oracle: or, Tags: tags}
 	}
 	return vlib.Res{Impl: "bad-op"}
 }
